@@ -82,7 +82,7 @@ theorem fold_outData_eq {i : ι} (h : Loc mirror total T i) :
 /-- the generated mask program of `Spectrum.fold` (before corner masking) -/
 theorem fold_outMask_eq (i : ι) :
     fold_outMask mirror total T x m i = (m i || m (mirror i) || fo total T i) := by
-  unfold fold_outMask fold_final_mask_2 fold_final_mask_1 fold_original_mask_1
+  unfold fold_outMask fold_final_mask_2 fold_final_mask_1
   rw [whereFoldedOut_eq]
 
 theorem unfold_outData_eq (i : ι) :
